@@ -750,3 +750,153 @@ pub async fn run_detach_behind_held_transfers() {
     };
     let _ = world::join2(td, peer::serve_teardown(&mut peer, 10_000)).await;
 }
+
+// ---------------------------------------------------------------------------------------
+// The peer takes its time over a detach and the application does not wait for it
+
+/// The application detaches or closes a link under a time-out; the peer has read the detach and
+/// answers only after the time-out has expired and the application has let go of the handle. One
+/// detach went out for that attach and no second one may follow (the wire model says so: a detach
+/// for a handle that is no longer attached); the session stays usable: the late answer is taken,
+/// and another link attaches and sends.
+pub async fn run_detach_answered_late() {
+    let closing = choice(2) == 1;
+    let receiver_role = choice(2) == 1;
+    let ccfg = EndpointCfg::default_cfg();
+    let (nab, nba, nd) = world::draw_net(false);
+    sim::set_config(format!("variant=detach-answered-late call={} endpoint-link={} {}", if closing { "close() under a time-out" } else { "detach_with_timeout()" }, if receiver_role { "receiver" } else { "sender" }, nd));
+    sim::mark_nontrivial();
+    sim::set_panic_is_violation(true);
+    let models = Models { sess: true, link: true, ..Models::none() };
+    let cvp = match peer::client_vs_peer(&ccfg, peer::open("peer", Some(65536), Some(255), None), nab, nba, models).await {
+        Some(x) => x,
+        None => return,
+    };
+    let peer::ClientVsPeer { mut client, mut peer, net, mon, .. } = cvp;
+    let bf = sim::in_group(1, Session::begin(&mut client));
+    let pb = async {
+        let b = peer.expect(wire::BEGIN).await?;
+        peer.send(0, &peer::begin(Some(b.channel), 0, 5000, 5000)).await;
+        Some(())
+    };
+    let mut session = match sim::op("begin", world::join2(bf, pb)).await {
+        Some((Ok(s), Some(()))) => s,
+        _ => return,
+    };
+    // the link under test: peer handle 8
+    enum L {
+        S(Sender),
+        R(Receiver),
+    }
+    let pa = async {
+        let a = peer.expect(wire::ATTACH).await?;
+        let ep_handle = a.perf.as_ref().unwrap().field(1).as_u32().unwrap_or(0);
+        let args = if receiver_role { AttachArgs::sender("lazy", 8) } else { AttachArgs::receiver("lazy", 8) };
+        peer.send(0, &peer::attach(&args)).await;
+        if !receiver_role {
+            let f = FlowArgs { next_incoming_id: Some(0), incoming_window: 5000, next_outgoing_id: 0, outgoing_window: 5000, handle: Some(8), delivery_count: Some(0), link_credit: Some(10), ..Default::default() };
+            peer.send(0, &peer::flow(&f)).await;
+        }
+        Some(ep_handle)
+    };
+    let link = if receiver_role {
+        match sim::op("attach", world::join2(sim::in_group(1, Receiver::attach(&mut session, "lazy", "q")), pa)).await {
+            Some((Ok(r), Some(_))) => L::R(r),
+            _ => return,
+        }
+    } else {
+        match sim::op("attach", world::join2(sim::in_group(1, Sender::attach(&mut session, "lazy", "q")), pa)).await {
+            Some((Ok(s), Some(_))) => L::S(s),
+            _ => return,
+        }
+    };
+    // the call, bounded by a time-out the peer does not meet; whatever it hands back is dropped
+    let t = std::time::Duration::from_millis(pick(&[50u64, 300]));
+    let r = match link {
+        L::S(s) => {
+            if closing {
+                format!("{:?}", tokio::time::timeout(t, s.close()).await.map(|r| r.map(|_| ())))
+            } else {
+                format!("{:?}", s.detach_with_timeout(t).await.map(|r| r.map(|_| ()).map_err(|(_, e)| e)))
+            }
+        }
+        L::R(rc) => {
+            if closing {
+                format!("{:?}", tokio::time::timeout(t, rc.close()).await.map(|r| r.map(|_| ())))
+            } else {
+                format!("{:?}", rc.detach_with_timeout(t).await.map(|r| r.map(|_| ()).map_err(|(_, e)| e)))
+            }
+        }
+    };
+    if !r.contains("Elapsed") {
+        sim::violation("teardown-returned-without-answer", format!("the peer had not answered the detach; the call returned {}", r));
+        return;
+    }
+    sim::fault("teardown-call-timed-out-and-handle-dropped");
+    // everything the endpoint wants to write after that
+    let mut frames: Vec<wire::WFrame> = Vec::new();
+    if !peer::settle(&mut peer, &net, |f| frames.push(f.clone())).await {
+        return;
+    }
+    frames.extend(std::mem::take(&mut peer.skipped));
+    mon.borrow_mut().sync();
+    if sim::has_violation() {
+        return;
+    }
+    let detaches: Vec<&wire::WFrame> = frames.iter().filter(|f| f.code == wire::DETACH).collect();
+    if detaches.len() != 1 {
+        sim::violation("detach-count", format!("one attach, one abandoned teardown call, handle dropped: the endpoint wrote {} detach frames: {:?}", detaches.len(), detaches.iter().map(|f| wire::describe_frame(f)).collect::<Vec<_>>()));
+        return;
+    }
+    let closed = detaches[0].perf.as_ref().unwrap().field(1).as_bool().unwrap_or(false);
+    // the late answer, in kind
+    peer.send(0, &peer::detach(8, closed, None)).await;
+    sim::probe("detach-answered-after-the-caller-gave-up");
+    // the session goes on: another link on the handle the peer has just freed
+    let af = sim::in_group(1, Sender::builder().name("next").target("q").sender_settle_mode(SenderSettleMode::Unsettled).attach(&mut session));
+    let pa = async {
+        loop {
+            let a = peer.expect(wire::ATTACH).await?;
+            if a.perf.as_ref().unwrap().field(0).as_str() == Some("next") {
+                break;
+            }
+        }
+        peer.send(0, &peer::attach(&AttachArgs::receiver("next", 8))).await;
+        let f = FlowArgs { next_incoming_id: Some(0), incoming_window: 5000, next_outgoing_id: 0, outgoing_window: 5000, handle: Some(8), delivery_count: Some(0), link_credit: Some(10), ..Default::default() };
+        peer.send(0, &peer::flow(&f)).await;
+        Some(())
+    };
+    let mut next = match sim::op("attach the next link", world::join2(af, pa)).await {
+        Some((Ok(s), Some(()))) => s,
+        Some((r, _)) => {
+            sim::violation("sibling-broken", format!("after the late answer another attach failed: {:?}", r.map(|_| ())));
+            return;
+        }
+        None => return,
+    };
+    let sf = sim::in_group(1, next.send(msgs::gen_message(4242, 100, 1)));
+    let ps = async {
+        let t = peer.expect(wire::TRANSFER).await?;
+        let id = t.perf.as_ref().unwrap().field(1).as_u32().unwrap_or(0);
+        peer.send(0, &peer::disposition(true, id, None, true, Some(peer::accepted()))).await;
+        Some(())
+    };
+    match sim::op("send on the next link", world::join2(sf, ps)).await {
+        Some((Ok(_), Some(()))) => sim::probe("sibling-link-survived"),
+        Some((r, _)) => {
+            sim::violation("sibling-broken", format!("send on the next link: {:?}", r.map(|_| ())));
+            return;
+        }
+        None => return,
+    }
+    mon.borrow_mut().sync();
+    if sim::has_violation() {
+        return;
+    }
+    let td = async {
+        let _ = tokio::time::timeout(std::time::Duration::from_secs(20), next.close()).await;
+        let _ = tokio::time::timeout(std::time::Duration::from_secs(20), session.end()).await;
+        let _ = tokio::time::timeout(std::time::Duration::from_secs(20), client.close()).await;
+    };
+    let _ = world::join2(td, peer::serve_teardown(&mut peer, 30_000)).await;
+}
